@@ -177,6 +177,13 @@ def vecHistory (cap : Option Nat) (spec : String) : String :=
     contents; the comparator treats a failed arithmetic op as "contents unspecified". -/
 def dummy : Unit := ()
 
+/-- specification of the `*_to_hi64_*` helpers for a non-zero top word: the top 64 bits of the
+    concatenation `n` and whether anything below them is non-zero -/
+def topSpec (top n : Nat) : String :=
+  if top = 0 then "" else
+    let bl := Nat.log2 n + 1
+    if bl ≥ 64 then s!" | S {n / 2^(bl-64)} {b01 (n % 2^(bl-64) != 0)}" else s!" | S {n * 2^(64-bl)} 0"
+
 def bigintCmd (E : Env) (t : List String) : String :=
   let cap := E.cap
   let T := E.pow
@@ -233,8 +240,14 @@ def bigintCmd (E : Env) (t : List String) : String :=
   | "scalar_add" => let r := scalarAdd (parseNat (arg 1)) (parseNat (arg 2)); s!"{r.1} {b01 r.2}"
   | "scalar_mul" => let r := scalarMul (parseNat (arg 1)) (parseNat (arg 2)) (parseNat (arg 3)); s!"{r.1} {r.2}"
   | "nonzero" => b01 (nonzero (parseLimbs (arg 1)) (parseNat (arg 2)))
-  | "u64_to_hi64_1" => let r := u64ToHi64_1 (parseNat (arg 1)); s!"{r.1} {b01 r.2}"
-  | "u64_to_hi64_2" => let r := u64ToHi64_2 (parseNat (arg 1)) (parseNat (arg 2)); s!"{r.1} {b01 r.2}"
+  | "u64_to_hi64_1" => let r := u64ToHi64_1 (parseNat (arg 1)); s!"{r.1} {b01 r.2}" ++ topSpec (parseNat (arg 1)) (parseNat (arg 1))
+  | "u64_to_hi64_2" => let r := u64ToHi64_2 (parseNat (arg 1)) (parseNat (arg 2)); s!"{r.1} {b01 r.2}" ++
+      topSpec (parseNat (arg 1)) (parseNat (arg 1) * B + parseNat (arg 2))
+  | "u32_to_hi64_1" => let r := W.u32ToHi64_1 (parseNat (arg 1)); s!"{r.1} {b01 r.2}" ++ topSpec (parseNat (arg 1)) (parseNat (arg 1))
+  | "u32_to_hi64_2" => let r := W.u32ToHi64_2 (parseNat (arg 1)) (parseNat (arg 2)); s!"{r.1} {b01 r.2}" ++
+      topSpec (parseNat (arg 1)) (parseNat (arg 1) * 4294967296 + parseNat (arg 2))
+  | "u32_to_hi64_3" => let r := W.u32ToHi64_3 (parseNat (arg 1)) (parseNat (arg 2)) (parseNat (arg 3)); s!"{r.1} {b01 r.2}" ++
+      topSpec (parseNat (arg 1)) ((parseNat (arg 1) * 4294967296 + parseNat (arg 2)) * 4294967296 + parseNat (arg 3))
   | "mulassign" => ctor (arg 1) fun x => ctor (arg 2) fun y =>
       (match largeMul cap x y with
        | some z => fmtLimbs z
